@@ -98,7 +98,26 @@ func genC17(g *prng.R) c17Case {
 		id := fmt.Sprintf("%s/notes/chain%d", pick(g, R1, R2), cnt)
 		doc := M{"type": "Note", "id": id, "content": "reply"}
 		if level < depth {
-			doc[pick(g, "inReplyTo", "inReplyTo", "tag", "object")] = chain(level + 1)
+			next := chain(level + 1)
+			key := pick(g, "inReplyTo", "inReplyTo", "tag", "object")
+			// siblings: the continuation of the chain is not always the first value
+			if g.Chance(1, 3) {
+				cnt++
+				sib := fmt.Sprintf("%s/notes/sibling%d", pick(g, R1, R2), cnt)
+				var sv interface{} = sib
+				if g.Bool() {
+					sv = M{"type": "Note", "id": sib}
+				} else if g.Bool() {
+					sc.Remote[sib] = sim.RemoteSpec{Doc: withCtx(M{"type": "Note", "id": sib})}
+				}
+				if g.Bool() {
+					doc[key] = A{sv, next}
+				} else {
+					doc[key] = A{next, sv}
+				}
+			} else {
+				doc[key] = next
+			}
 		}
 		if g.Bool() {
 			return doc
@@ -128,7 +147,17 @@ func genC17(g *prng.R) c17Case {
 			}
 		}
 	default:
-		act["object"] = first
+		if g.Chance(1, 3) {
+			sib := R2 + "/notes/top-sibling"
+			sc.Remote[sib] = sim.RemoteSpec{Doc: withCtx(M{"type": "Note", "id": sib, "content": "unrelated"})}
+			if g.Bool() {
+				act["object"] = A{sib, first}
+			} else {
+				act["object"] = A{M{"type": "Note", "id": sib}, first}
+			}
+		} else {
+			act["object"] = first
+		}
 	}
 	if g.Chance(1, 5) {
 		act["tag"] = A{M{"type": "Mention", "href": pick(g, alice(), carol())}}
